@@ -12,8 +12,11 @@ META = {
     "engine": "tla-roundtrip",
     "technique": "TLC model checking of an implementation-shaped TLA+ model of the create/open/open_or_create/drop "
                  "protocol against an atomic-object property layer (lock-step shadow), trace validation of real "
-                 "sequential, multi-thread and multi-process histories as a linearizability problem, and a "
-                 "TLC-generated requirement matrix replayed against the real builders",
+                 "sequential, multi-thread and multi-process histories as a linearizability problem, a "
+                 "TLC-generated requirement matrix replayed against the real builders, and fault injection / kill "
+                 "enumeration of real processes under an LD_PRELOAD shim (every state-changing libc call of create / "
+                 "open / open_or_create fails once; the creator is killed before each of them) validated against "
+                 "the same property layer",
     "text": "ServiceAbs.tla specifies a service name as an atomic object absent|exists(id, settings, users) with the "
             "clauses of the property as named invariants; TLC checks that ServiceLifecycle.tla (one action per step "
             "of builder/mod.rs and ServiceState::drop, 2-3 nodes, retry budget instead of time) is explained by it "
@@ -22,11 +25,24 @@ META = {
             "TLC against ServiceAbsTrace.tla with silent linearization steps; transient documented errors are "
             "accepted only when a justifying call of another thread overlaps. ServiceCompat.tla is the requirement "
             "matrix of verify_service_configuration; TLC enumerates creator/opener pairs and the driver compares "
-            "every real outcome, the settings every handle shows and that the service is left untouched.",
+            "every real outcome, the settings every handle shows and that the service is left untouched (including "
+            "the service tag of the opener's node). Failing environment: the shim makes the k-th libc call of an "
+            "operation fail (all k); the call may end with a documented environment error WITHOUT effect (RetEnv) or "
+            "succeed - the following quiescent observations (existence, listing, files, shm objects, service tags, "
+            "node directories) and calls of other nodes are explained by the unchanged object only. Crashed creator: "
+            "a real creator is killed before its N-th libc call (all N); open / open_or_create / create of another "
+            "process with a small creation timeout must RETURN (a hang is declared only on proof from the process' "
+            "own syscall log). ServiceLifecycle.tla has a failure alternative at every step and a crash action; the "
+            "classic mistakes (static config released early, tag released at once, unbounded wait) must be refuted.",
     "note": "Trusted: TLC, the call/ret stamping (one SeqCst counter in shared memory, incremented immediately "
             "before the call and after the return), the rendering of static_config() by the driver. Concurrent "
             "histories are free-running (seeded yields), so rare interleavings are covered by the model, not "
-            "guaranteed on the real code. No crashes are injected here (C04/C07). The blackboard open() that races "
+            "guaranteed on the real code. Faults are injected into single-threaded histories only (the model covers "
+            "faults under concurrency), never into releasing calls (close/unlink/...) and not into drop; after a "
+            "crash only termination and the validity of returned handles are judged (leftovers: C04). A hang verdict "
+            "needs: no result for >= 20 s (>= 30 x creation timeout) AND the same retry loop growing between two "
+            "samples of the process' own syscall log by more calls than a bounded wait can make. Genuine defects found "
+            "by the fault / crash enumeration are listed in known_findings.json (fault:* / crash:*). The blackboard open() that races "
             "with a creation or the last user's drop returns ServiceInCorruptedState for a healthy service: a known "
             "finding (known_findings.json); the trace specification steps over exactly this case (KnownDeviation) so "
             "that the remaining blackboard histories are still validated, and the check reports it as a violation "
@@ -1241,6 +1257,10 @@ def run(ctx):
         "isolated domains (own global.prefix, root path and default QoS values) under the work directory",
         "scheduler mode: one preemption per execution, yield points = instrumented atomic accesses; a thread "
         "waiting for a paused peer gives up after a short creation timeout (a justified transient error)",
+        "fault injection: one failing libc call per operation (errno: the usual one of the call; thorough also EMFILE, "
+        "EINTR), sequential histories, numbering of the LD_PRELOAD shim (state-changing calls on paths of the isolated domain)",
+        "crash = SIGKILL immediately before a state-changing libc call of create()/open_or_create(); the surviving process "
+        "starts after the victim is dead; bounded waits of the code sleep >= 1 ms per iteration (hang proof)",
     ]
     root = ctx.path("dom", "x")[:-2]
     strace_works()          # probe once, before the worker threads start
